@@ -7,6 +7,8 @@ export CARGO_NET_OFFLINE=true
 command -v cargo >/dev/null
 cargo kani --version >/dev/null 2>&1 || { echo "cargo kani missing"; exit 1; }
 command -v z3 >/dev/null || { echo "z3 missing"; exit 1; }
+command -v cvc5 >/dev/null || { echo "cvc5 missing"; exit 1; }
+cargo +nightly --version >/dev/null 2>&1 || { echo "nightly toolchain (MIR dumps) missing"; exit 1; }
 python3 -c "import json" 
 mkdir -p evidence replays
 echo "setup ok"
